@@ -372,8 +372,10 @@ def margin_ok(x, y):
 # --------------------------------------------------------------------------
 
 def rgrid(rng: Rng, dim, sizes=None):
+    """Sorted dyadic grids; every fourth one sits at a large offset (years, epoch-like), where a
+    relative comparison of sampling points would identify neighbouring grids."""
     sizes = sizes or [rng.choice([1, 2, 2, 3, 3, 4]) for _ in range(dim)]
-    return [rng.grid(m, lo=rng.choice([0, 0, -1, Fraction(3, 2)]), scale=rng.choice([1, 1, 2, Fraction(1, 2)])) for m in sizes]
+    return [rng.grid(m, lo=rng.choice([0, 0, -1, Fraction(3, 2), 0, 2000, 1048576, -365]), scale=rng.choice([1, 1, 2, Fraction(1, 2)])) for m in sizes]
 
 
 def gsize(grid):
@@ -455,8 +457,31 @@ def _move_point(rng, grid):
     lo = t[j - 1] if j > 0 else t[j] - 1
     hi = t[j + 1] if j + 1 < len(t) else t[j] + 1
     new = (lo + t[j]) / 2 if rng.random() < 0.5 else (t[j] + hi) / 2
+    if rng.random() < 0.45:
+        # a *tiny* move (absolute 2^-12 .. 2^-34, i.e. relative 1e-4 .. 1e-16 of the coordinate): still another grid
+        for e in rng.sample([12, 16, 20, 24, 28, 30, 34], 7):
+            cand = t[j] + rng.choice([1, -1]) * Fraction(1, 2**e)
+            if lo < cand < hi and Fraction(float(cand)) == cand:
+                new = cand
+                break
     g2[k][j] = q(new)
     return g2
+
+
+def _shift_grid(rng, grid):
+    """The whole grid of one dimension shifted by a few of its own steps or by a tiny amount
+    (same number of points, same spacing): e.g. t = 2000 + k/365 moved by one sampling step."""
+    g2 = [list(u) for u in grid]
+    k = rng.randrange(len(g2))
+    t = [F(u) for u in g2[k]]
+    step = (t[1] - t[0]) if len(t) > 1 else Fraction(1, 64)
+    for _ in range(8):
+        d = rng.choice([step, 2 * step, -step, Fraction(1, 2**20), Fraction(1, 2**28), -Fraction(1, 2**24)])
+        cand = [u + d for u in t]
+        if all(Fraction(float(c)) == c for c in cand):
+            g2[k] = [q(c) for c in cand]
+            return g2
+    return _move_point(rng, grid)
 
 
 def _resize(rng, grid, one_vs_m=False):
@@ -516,11 +541,12 @@ def variant(rng: Rng, a, respect):
             obs.append((l, g2, rvals(rng, gsize(g2))))
         return I(obs)
     if respect == "grid":
+        mover = _shift_grid if rng.random() < 0.35 else _move_point
         if k == "D":
-            return D(_move_point(rng, a["grid"]), [rvals(rng, len(r)) for r in a["rows"]])
+            return D(mover(rng, a["grid"]), [rvals(rng, len(r)) for r in a["rows"]])
         obs = [list(o) for o in a["obs"]]
         j = rng.randrange(len(obs))
-        obs[j] = [obs[j][0], _move_point(rng, obs[j][1]), obs[j][2]]
+        obs[j] = [obs[j][0], mover(rng, obs[j][1]), obs[j][2]]
         return dict(k="I", obs=[[l, g, [q(v) for v in rvals(rng, len(vs))]] for l, g, vs in obs])
     if respect == "labels":
         obs = [list(o) for o in a["obs"]]
@@ -722,6 +748,36 @@ def bin_cases(rng: Rng, n):
             yield dict(kind="bin", op=op, a=a, b=b, respect=resp)
 
 
+def _derive_desc(d, base, ix):
+    """Description of `base(x)[ix]` for the dataset described by `d` (plain list semantics)."""
+    fac = {"x": 1, "x+x": 2, "2*x": 2, "x-x": 0}[base]
+    sel = (lambda seq: [seq[ix]]) if isinstance(ix, int) else (lambda seq: seq[slice(*ix)] if isinstance(ix, tuple) else [seq[i] for i in ix])
+    if d["k"] == "D":
+        return dict(k="D", grid=d["grid"], rows=[[q(fac * F(v)) for v in r] for r in sel(d["rows"])])
+    return dict(k="I", obs=[[l, g, [q(fac * F(v)) for v in vs]] for l, g, vs in sel(d["obs"])])
+
+
+def derived_cases(rng: Rng, n):
+    """Operands DERIVED from each other by selection / arithmetic (they share argvals objects):
+    another number of observations must still be rejected, the same number combined pointwise."""
+    for _ in range(n):
+        nobs = rng.choice([2, 2, 3, 4])
+        x = rdense(rng, nobs=nobs) if rng.random() < 0.65 else rirreg(rng, nobs=nobs, labels=list(range(nobs)))
+        base = rng.choice(["x", "x", "x+x", "2*x", "x-x"])
+        ix = rng.choice([0, nobs - 1, -1, (0, 1, None), (1, 2, None), (None, None, None), (None, None, 2), [0], [nobs - 1], list(range(nobs))])
+        if x["k"] == "I" and isinstance(ix, tuple) and ix == (None, None, 2) and nobs < 3:
+            ix = 0
+        y = _derive_desc(x, base, ix)
+        same_n = nobs_of(y) == nobs
+        target = rng.choice(["a", "b"])
+        ops = OPS if rng.random() < 0.3 else [rng.choice(OPS)]
+        for op in ops:
+            case = dict(kind="bin", op=op, respect="ok" if same_n else "n_obs",
+                        derive=dict(target=target, base=base, ix=list(ix) if isinstance(ix, tuple) else ix, slice=isinstance(ix, tuple)))
+            case["a"], case["b"] = (y, x) if target == "a" else (x, y)
+            yield case
+
+
 def sc_cases(rng: Rng, n):
     for _ in range(n):
         a = rdata(rng)
@@ -782,6 +838,7 @@ def gen_cases(rng: Rng, tier):
     k = dict(quick=1, thorough=12)[tier]
     yield from FIXED
     yield from bin_cases(rng, 130 * k)
+    yield from derived_cases(rng, 45 * k)
     yield from sc_cases(rng, 90 * k)
     yield from ident_cases(rng, 40 * k)
     yield from eq_cases(rng, 120 * k)
@@ -790,6 +847,7 @@ def gen_cases(rng: Rng, tier):
 
 def search_cases(rng: Rng, tier):
     yield from bin_cases(rng, 200)
+    yield from derived_cases(rng, 80)
     yield from sc_cases(rng, 100)
     yield from eq_cases(rng, 200)
     yield from mv_cases(rng, 100)
@@ -836,8 +894,28 @@ def _check_result(res, left, expected, tol=0.0):
     return bad
 
 
+def _derive_obj(x, dv):
+    base = {"x": lambda o: o, "x+x": lambda o: o + o, "2*x": lambda o: 2 * o, "x-x": lambda o: o - o}[dv["base"]](x)
+    ix = dv["ix"]
+    if dv.get("slice"):
+        return base[slice(*ix)]
+    if isinstance(ix, list):
+        return base[np.array(ix, dtype=int)]
+    return base[int(ix)]
+
+
 def run_bin(case):
-    a, b = build(case["a"]), build(case["b"])
+    dv = case.get("derive")
+    if dv:
+        # the derived operand is computed from the *object* of the other one (shared argvals)
+        if dv["target"] == "b":
+            a = build(case["a"])
+            b = _derive_obj(a, dv)
+        else:
+            b = build(case["b"])
+            a = _derive_obj(b, dv)
+    else:
+        a, b = build(case["a"]), build(case["b"])
     sa, sb = snapshot(a), snapshot(b)
     inc = incompat(a, b)
     out = dict(incompat=inc, order_differs=False)
@@ -1229,6 +1307,8 @@ def classify(case, impl):
         dim = dim_of(case["a"]) if case["a"]["k"] != "X" else 0
         tags.append(f"bin:{case['op']}:{impl.get('err', 'ok')}")
         tags.append(f"bin:{kinds}{dim}d:{case.get('respect')}:{impl.get('err', 'ok')}")
+        if case.get("derive"):
+            tags.append(f"bin:derived:{case['derive']['base']}:{case.get('respect')}:{impl.get('err', 'ok')}")
         if "res" in impl:
             tags.append("bin:grid-object-shared" if impl.get("shared_grid") else "bin:grid-object-copied")
             r = impl["res"]
